@@ -38,11 +38,14 @@ def messages_mod(u, m, requests=False, t=None, fee="none"):
         u.item(m, "Onion", "struct")
         u.item(m, "Htlc", "struct")
     u.item(m, "HtlcAcceptedResponse", "enum")
-    u.raw("impl Clone for HtlcAcceptedResponse {\n #[verifier::external_body]\n fn clone(&self) -> (r: Self) ensures r == *self { unimplemented!() }\n}\n")
+    u.derived(m, "HtlcAcceptedResponse", "Clone", "messages")
     u.item(m, "HtlcFailReason", "enum")
     u.item(m, "TrampolineRoutingPolicy", "struct")
-    u.raw("impl Clone for TrampolineRoutingPolicy {\n #[verifier::external_body]\n fn clone(&self) -> (r: Self) ensures r == *self { unimplemented!() }\n}\n")
+    u.derived(m, "TrampolineRoutingPolicy", "Clone", "messages")
+    u.derived(m, "TrampolineRoutingPolicy", "PartialEq", "messages")
     u.item(m, "TrampolineInfo", "struct")
+    u.derived(m, "TrampolineInfo", "Clone", "messages")
+    u.derived(m, "TrampolineInfo", "PartialEq", "messages")
     im = m.find("HtlcFailReason", "impl")
     u.raw("impl HtlcFailReason {\n")
     u.fn(m, m.find_fn_in(im, "encode"), "messages::HtlcFailReason::encode", stub=True)
